@@ -72,6 +72,9 @@ type Method struct {
 	method interface{}
 	// Set if the receiver is already bound into method (see newBoundMethod)
 	boundSelf bool
+	// Set when the method was looked up through a type: the type
+	// its self argument has to be an instance of
+	owner *Type
 	// Parent module of this method
 	Module *Module
 }
@@ -235,6 +238,25 @@ func newBoundMethod(name string, fn interface{}) (Object, error) {
 	return m, nil
 }
 
+// typeAttr marks a method of a builtin type which was found as
+// attribute key of type t with the type defining it, so that calling
+// it through the type checks the type of its self argument
+func typeAttr(t *Type, key string, res Object) Object {
+	m, ok := res.(*Method)
+	if !ok || m.Module != nil || m.boundSelf {
+		return res
+	}
+	unbound := *m
+	unbound.owner = t
+	for _, baseObj := range t.Mro {
+		if base, ok := baseObj.(*Type); ok && base.Dict[key] == res {
+			unbound.owner = base
+			break
+		}
+	}
+	return &unbound
+}
+
 // Call a method
 func (m *Method) M__call__(args Tuple, kwargs StringDict) (Object, error) {
 	self := Object(m.Module)
@@ -245,6 +267,9 @@ func (m *Method) M__call__(args Tuple, kwargs StringDict) (Object, error) {
 			return nil, ExceptionNewf(TypeError, "descriptor '%s' needs an argument", m.Name)
 		}
 		self, args = args[0], args[1:]
+		if m.owner != nil && !self.Type().IsSubtype(m.owner) {
+			return nil, ExceptionNewf(TypeError, "descriptor '%s' requires a '%s' object but received a '%s'", m.Name, m.owner.Name, self.Type().Name)
+		}
 	}
 	if kwargs != nil {
 		return m.CallWithKeywords(self, args, kwargs)
